@@ -85,12 +85,17 @@ def user(g, lib):
     return {k: refval.canon(v) for k, v in g.items() if k not in lib}
 
 
-def run_real(model, init, limit, api, watched=True):
+def run_real(model, init, limit, api, watched=True, reuse=None):
     bare_script, lib, rt_err = api
     logs = []
     g = copy.deepcopy(init)
-    o = WatchedOptions({'globals': g, 'logFn': logs.append, 'maxStatements': limit}) if watched else \
-        {'globals': g, 'logFn': logs.append, 'maxStatements': limit}
+    if reuse is not None:
+        # the SAME options dict object as for earlier, different models (fresh globals): nothing may be remembered in it
+        o = reuse
+        o.update({'globals': g, 'logFn': logs.append, 'maxStatements': limit})
+    else:
+        o = WatchedOptions({'globals': g, 'logFn': logs.append, 'maxStatements': limit}) if watched else \
+            {'globals': g, 'logFn': logs.append, 'maxStatements': limit}
     try:
         r = ('ok', refval.canon(bare_script.execute_script(model, o)))
     except rt_err as exc:
@@ -112,7 +117,7 @@ def run_ref(model, init, limit, lib, **kw):
     return r, vm.logs, user(g, lib), vm.clock
 
 
-def check_model(frozen, plain, init, limit, acc, api, case_fn):
+def check_model(frozen, plain, init, limit, acc, api, case_fn, reuse=None):
     bare_script, lib, rt_err = api
     before = json.dumps(plain, sort_keys=True)
     b = run_ref(plain, init, limit, lib)  # reference first: it is bounded, and cases it leaves open are not run at all
@@ -138,6 +143,12 @@ def check_model(frozen, plain, init, limit, acc, api, case_fn):
     if a2 != a:
         acc.violation('second-run-differs', f'first={a!r:.400} second={a2!r:.400} model={json.dumps(plain)[:500]}', case_fn())
         return False
+    if reuse is not None:
+        a3 = run_real(plain, init, limit, api, reuse=reuse)
+        acc.count('reused_options_runs')
+        if a3 != a:
+            acc.violation('run-depends-on-earlier-models', f'with an options dict that earlier executed other models: {a3!r:.400}; fresh options: {a!r:.400} model={json.dumps(plain)[:500]}', case_fn())
+            return False
     return True
 
 
@@ -211,6 +222,7 @@ def rand_stmts(rnd, n, names, infunc):
 def run_random(spec, acc, api):
     bare_script, lib, rt_err = api
     base = spec['seed'] * 1000003 + spec['shard'] * 7919 + 23
+    shared = {}
     for i in range(spec['n']):
         rnd = random.Random(base + i)
         if rnd.random() < 0.8:
@@ -230,7 +242,7 @@ def run_random(spec, acc, api):
             continue
         try:
             with core.alarm(20):
-                check_model(freeze(plain), plain, init, limit, acc, api, lambda: {'model': plain, 'init': refval.enc(init), 'limit': limit})
+                check_model(freeze(plain), plain, init, limit, acc, api, lambda: {'model': plain, 'init': refval.enc(init), 'limit': limit}, reuse=shared)
         except core.CaseTimeout:
             acc.timeouts += 1
         txt = json.dumps(plain, sort_keys=True)
